@@ -307,6 +307,82 @@ def rule_r5(rep, repo):
     rep.floor("shape configurations", n, 20)
 
 
+def rule_r6(rep, repo):
+    """Wrapping keeps derived quantities in step.  When the constructor re-binds `points` (the wrapped
+    copy) inside a conditional block, every local or field that was computed from the *old* points
+    before the block and is still used (or stored) afterwards must be updated in the same block;
+    otherwise it describes positions the grid no longer has (e.g. a bounding volume of the unwrapped
+    points).  Shape-only reads (`.ndim`, `.shape`, `len`) are not value dependencies."""
+    from gridlint.props.c07 import local_defs
+    init = repo.method("PeriodicGrid", "__init__")
+    body = strip_docstring(init.node.body)
+    X = init.params[1]
+    SHAPE_ATTRS = ("ndim", "shape", "size", "dtype")
+
+    def value_reads(e, names):
+        """Names of `names` whose *values* the expression reads."""
+        out = set()
+        skip = set()
+        for n in ast.walk(e):
+            if isinstance(n, ast.Attribute) and n.attr in SHAPE_ATTRS and isinstance(n.value, ast.Name):
+                skip.add(id(n.value))
+            if isinstance(n, ast.Call) and norm(n.func) == "len" and n.args and isinstance(n.args[0], ast.Name):
+                skip.add(id(n.args[0]))
+        for n in ast.walk(e):
+            if isinstance(n, ast.Name) and isinstance(n.ctx, ast.Load) and n.id in names and id(n) not in skip:
+                out.add(n.id)
+        return out
+    # the conditional block(s) that re-bind X
+    blocks = [(i, s) for i, s in enumerate(body) if isinstance(s, ast.If) and any(
+        isinstance(a, ast.Assign) and any(isinstance(t, ast.Name) and t.id == X for t in a.targets) for a in ast.walk(s))]
+    if not blocks:
+        rep.note("PeriodicGrid.__init__ never re-binds its points: nothing to keep in step")
+        return
+    n = 0
+    for i, blk in blocks:
+        # locals / fields derived (transitively) from X before the block
+        derived = {X}
+        stale_candidates = {}
+        for st in body[:i]:
+            for a in ast.walk(st):
+                if isinstance(a, (ast.Assign, ast.AugAssign)):
+                    tgts = a.targets if isinstance(a, ast.Assign) else [a.target]
+                    if value_reads(a.value, derived):
+                        for t in tgts:
+                            if isinstance(t, ast.Name):
+                                derived.add(t.id)
+                                stale_candidates[t.id] = a
+                            elif isinstance(t, ast.Attribute) and norm(t.value) == "self":
+                                stale_candidates["self." + t.attr] = a
+        updated = set()
+        for a in ast.walk(blk):
+            if isinstance(a, (ast.Assign, ast.AugAssign)):
+                tgts = a.targets if isinstance(a, ast.Assign) else [a.target]
+                for t in tgts:
+                    updated.add(norm(t))
+        used_after = set()
+        for st in body[i + 1:]:
+            for n_ in ast.walk(st):
+                if isinstance(n_, ast.Name) and isinstance(n_.ctx, ast.Load):
+                    used_after.add(n_.id)
+        for name, a in sorted(stale_candidates.items()):
+            if name == X:
+                continue
+            live = name.startswith("self.") or name in used_after
+            if not live:
+                continue
+            n += 1
+            if name in updated:
+                rep.ok("R6.wrap-keeps-derived-in-step", f"PeriodicGrid.__init__:{name}", repo.rel("periodicgrid", a),
+                       "updated in the block that re-binds the points")
+            else:
+                rep.violation("R6.wrap-keeps-derived-in-step", "periodicgrid.PeriodicGrid.__init__", name,
+                              f"`{norm(a)[:70]}` is computed from the points before they are wrapped and is not updated "
+                              f"when `{X}` is re-bound under `if {norm(blk.test)[:40]}`: with wrapping it describes "
+                              f"positions the grid no longer has", repo.rel("periodicgrid", a))
+    rep.floor("quantities derived from the points before wrapping", n, 1)
+
+
 def run(tier="quick", root="/repo", evidence_dir=None, quiet=False):
     rep = Report(PROP, tier, root, EXPLANATION, RULE, assumptions=[
         "norms, absolute values, even powers and square roots are non-negative; everything else is unknown sign",
@@ -319,6 +395,7 @@ def run(tier="quick", root="/repo", evidence_dir=None, quiet=False):
     rep.attempt(rule_r2, rep, repo)
     rep.attempt(rule_r3, rep, repo, f)
     rep.attempt(rule_r5, rep, repo)
+    rep.attempt(rule_r6, rep, repo)
     # R4: C10 rules on this override
     from gridlint.props import c10
     sub = Report("C10", tier, root, "", "")
